@@ -699,3 +699,197 @@ func TestC14Client(t *testing.T) {
 		kit.Record("C14", fmt.Sprintf("client|%d|%d|%s", kase.FailWindowMs/10, kase.Burst/20, kase.HandlerDelay), true, func() interface{} { return kase }, "client-dispatcher-after-failed-reconnects")
 	})
 }
+
+type c14PartialCase struct {
+	Existing int    `json:"rowsBefore"`
+	Good     int    `json:"newRowsInTheNotification"`
+	Bad      string `json:"rowThatCannotBeApplied"`
+	Encoding string `json:"encoding"`
+	Handlers int    `json:"handlers"`
+	Modified int    `json:"rowsModifiedAfterwards"`
+}
+
+// TestC14Partial: a notification of several rows of which one cannot be applied (an insert
+// of a row the cache holds, as the reply to an overlapping monitor carries; a modification
+// or deletion of a row it does not hold). Go map order decides how many of the other rows
+// are applied before the bad one is met. Whatever that number is, the events delivered must
+// tell exactly what was applied: replaying them reproduces the cache, also after the rows
+// that made it are modified once more.
+func TestC14Partial(t *testing.T) {
+	w := c16World(t)
+	tb := w.S.Table("T0")
+	rapid.Check(t, func(t *rapid.T) {
+		kase := c14PartialCase{Existing: rapid.IntRange(1, 4).Draw(t, "existing"), Good: rapid.IntRange(1, 8).Draw(t, "good"),
+			Bad:      rapid.SampledFrom([]string{"insert-of-a-cached-row", "modify-of-an-unknown-row", "delete-of-an-unknown-row"}).Draw(t, "bad"),
+			Encoding: rapid.SampledFrom([]string{"update2", "update"}).Draw(t, "encoding"), Handlers: rapid.IntRange(1, 2).Draw(t, "handlers")}
+		tc, err := cache.NewTableCache(w.DBModel, nil, nil)
+		if err != nil {
+			t.Fatal(err)
+		}
+		type replay struct {
+			mu   sync.Mutex
+			rows kit.Rows
+			bad  []string
+			n    int
+		}
+		var logs []*replay
+		for i := 0; i < kase.Handlers; i++ {
+			lg := &replay{rows: kit.Rows{}}
+			logs = append(logs, lg)
+			tc.AddEventHandler(&cache.EventHandlerFuncs{
+				AddFunc: func(table string, m model.Model) {
+					u, r, err := w.RowFromModel(table, m)
+					lg.mu.Lock()
+					defer lg.mu.Unlock()
+					lg.n++
+					if err != nil || table != "T0" {
+						lg.bad = append(lg.bad, fmt.Sprintf("add event on %s: %v", table, err))
+						return
+					}
+					if _, known := lg.rows[u]; known {
+						lg.bad = append(lg.bad, "add event for "+u+", which was added already")
+					}
+					lg.rows[u] = r
+				},
+				UpdateFunc: func(table string, o, n model.Model) {
+					u, r, err := w.RowFromModel(table, n)
+					_, or, _ := w.RowFromModel(table, o)
+					lg.mu.Lock()
+					defer lg.mu.Unlock()
+					lg.n++
+					if err != nil {
+						lg.bad = append(lg.bad, fmt.Sprintf("update event: %v", err))
+						return
+					}
+					prev, known := lg.rows[u]
+					if !known {
+						lg.bad = append(lg.bad, "update event for "+u+", of which no add event was delivered")
+					} else if prev.Key() != or.Key() {
+						lg.bad = append(lg.bad, fmt.Sprintf("update event for %s: old is %s, the previous events left %s", u, or.Key(), prev.Key()))
+					}
+					lg.rows[u] = r
+				},
+				DeleteFunc: func(table string, m model.Model) {
+					u, _, _ := w.RowFromModel(table, m)
+					lg.mu.Lock()
+					defer lg.mu.Unlock()
+					lg.n++
+					if _, known := lg.rows[u]; !known {
+						lg.bad = append(lg.bad, "delete event for "+u+", of which no add event was delivered")
+					}
+					delete(lg.rows, u)
+				},
+			})
+		}
+		stop := make(chan struct{})
+		done := make(chan struct{})
+		go func() { tc.Run(stop); close(done) }()
+		defer func() { close(stop); <-done }()
+		mkRow := func(i int) kit.Row {
+			return kit.Row{"marker": kit.Scalar(kit.Str(fmt.Sprintf("m%d", i))), "n": kit.Scalar(kit.Int(int64(i))), "tags": kit.SetOf(kit.Str("t"))}
+		}
+		cur := kit.Rows{}
+		for i := 0; i < kase.Existing; i++ {
+			u := kit.MkUUID(i + 1)
+			r, _ := tb.OvsRow(mkRow(i), true)
+			if err := tc.Update2(nil, ovsdb.TableUpdates2{"T0": {u: &ovsdb.RowUpdate2{Insert: &r}}}); err != nil {
+				t.Fatalf("harness: %v", err)
+			}
+			cur[u] = mkRow(i)
+		}
+		fail := func(class, format string, args ...interface{}) {
+			kit.Fail(t, "C14", class, kase, format, args...)
+		}
+		// the mixed notification
+		tu2, tu1 := ovsdb.TableUpdate2{}, ovsdb.TableUpdate{}
+		for i := 0; i < kase.Good; i++ {
+			u := kit.MkUUID(100 + i)
+			r, _ := tb.OvsRow(mkRow(100+i), true)
+			r1, _ := tb.OvsRow(mkRow(100+i), false)
+			tu2[u] = &ovsdb.RowUpdate2{Insert: &r}
+			tu1[u] = &ovsdb.RowUpdate{New: &r1}
+		}
+		switch kase.Bad {
+		case "insert-of-a-cached-row":
+			u := kit.MkUUID(1)
+			other := mkRow(777)
+			r, _ := tb.OvsRow(other, true)
+			r1, _ := tb.OvsRow(other, false)
+			tu2[u] = &ovsdb.RowUpdate2{Insert: &r}
+			tu1[u] = &ovsdb.RowUpdate{New: &r1}
+		case "modify-of-an-unknown-row":
+			u := kit.MkUUID(999)
+			r, _ := tb.OvsRow(kit.Row{"n": kit.Scalar(kit.Int(5))}, false)
+			o, _ := tb.OvsRow(kit.Row{"n": kit.Scalar(kit.Int(4))}, false)
+			tu2[u] = &ovsdb.RowUpdate2{Modify: &r}
+			tu1[u] = &ovsdb.RowUpdate{Old: &o, New: &r}
+		default:
+			u := kit.MkUUID(999)
+			tu2[u] = &ovsdb.RowUpdate2{Delete: &ovsdb.Row{}}
+			tu1[u] = &ovsdb.RowUpdate{Old: &ovsdb.Row{}}
+		}
+		if kase.Encoding == "update2" {
+			err = tc.Update2(nil, ovsdb.TableUpdates2{"T0": tu2})
+		} else {
+			err = tc.Update(nil, ovsdb.TableUpdates{"T0": tu1})
+		}
+		if err == nil {
+			// the cache took all of it (it may treat the odd row as harmless): then all of it counts
+			kit.Label("C14", "partial:notification-accepted-entirely")
+		}
+		cacheRows := func() kit.Rows {
+			rows, err := w.RowsFromModels("T0", tc.Table("T0").Rows())
+			if err != nil {
+				t.Fatalf("harness: %v", err)
+			}
+			return rows
+		}
+		settle := func(stage string) {
+			deadline := time.Now().Add(10 * time.Second)
+			for {
+				want := cacheRows()
+				var problems []string
+				for i, lg := range logs {
+					lg.mu.Lock()
+					d := kit.DiffStates(kit.State{"T0": want}, kit.State{"T0": lg.rows})
+					bad := append([]string{}, lg.bad...)
+					lg.mu.Unlock()
+					for _, x := range bad {
+						problems = append(problems, fmt.Sprintf("handler %d: %s", i, x))
+					}
+					if len(bad) > 0 {
+						fail("events.illegal-sequence", "%s: %s", stage, strings.Join(problems, "\n"))
+					}
+					for _, x := range d {
+						problems = append(problems, fmt.Sprintf("handler %d: cache vs replayed events: %s", i, x))
+					}
+				}
+				if len(problems) == 0 {
+					return
+				}
+				if time.Now().After(deadline) {
+					fail("events.replay-differs", "%s: 10 s later the events delivered do not reproduce the cache:\n%s", stage, strings.Join(problems, "\n"))
+				}
+				time.Sleep(time.Millisecond)
+			}
+		}
+		settle("after the notification with a row that cannot be applied")
+		// every row that made it is modified once
+		after := cacheRows()
+		for _, u := range kit.SortedUUIDs(after) {
+			if _, old := cur[u]; old {
+				continue
+			}
+			nr := after[u].Clone()
+			nr["n"] = kit.Scalar(kit.Int(nr["n"].K[0].I + 1000))
+			d, _ := tb.OvsRow(tb.Update2Diff(after[u], nr), false)
+			if err := tc.Update2(nil, ovsdb.TableUpdates2{"T0": {u: &ovsdb.RowUpdate2{Modify: &d}}}); err != nil {
+				fail("cache.apply-error", "modifying row %s, which the cache holds: %v", u, err)
+			}
+			kase.Modified++
+		}
+		settle("after modifying the rows that were applied")
+		kit.Record("C14", fmt.Sprintf("partial|%d|%d|%s|%s|%d|%d", kase.Existing, kase.Good, kase.Bad, kase.Encoding, kase.Handlers, kase.Modified), kase.Modified > 0 && kase.Modified < kase.Good,
+			func() interface{} { return kase }, "partial-notification", "partial:applied-"+map[bool]string{true: "none", false: map[bool]string{true: "all", false: "some"}[kase.Modified == kase.Good]}[kase.Modified == 0]+"-of-the-other-rows")
+	})
+}
